@@ -179,10 +179,15 @@ func verifyProofData(keys, values []*felt.Felt) error {
 
 // verifyEmptyRangeProof handles the case when there are no key-value pairs
 func verifyEmptyRangeProof(rootHash, first *felt.Felt, proof *ProofNodeSet) (bool, error) {
+	// The empty trie has a zero root, an empty proof and no entries
+	if rootHash.IsZero() {
+		return false, nil
+	}
+
 	var firstKey Path
 	firstKey.SetFelt(contractClassTrieHeight, first)
 
-	rootKey, val, err := proofToPath(rootHash, nil, firstKey, proof, true)
+	rootKey, val, err := proofToPath(rootHash, nil, firstKey, proof, crypto.Pedersen, true)
 	if err != nil {
 		return false, err
 	}
@@ -199,7 +204,7 @@ func verifySingleElementProof(rootHash, key, value *felt.Felt, proof *ProofNodeS
 	var keyPath Path
 	keyPath.SetFelt(contractClassTrieHeight, key)
 
-	root, val, err := proofToPath(rootHash, nil, keyPath, proof, false)
+	root, val, err := proofToPath(rootHash, nil, keyPath, proof, crypto.Pedersen, false)
 	if err != nil {
 		return false, err
 	}
@@ -223,13 +228,13 @@ func verifyRangeWithProof(rootHash, first, last *felt.Felt, keys, values []*felt
 	lastKey.SetFelt(contractClassTrieHeight, last)
 
 	// Build the trie with the left edge proof
-	root, _, err := proofToPath(rootHash, nil, firstKey, proof, true)
+	root, _, err := proofToPath(rootHash, nil, firstKey, proof, crypto.Pedersen, true)
 	if err != nil {
 		return false, err
 	}
 
 	// Add the right edge proof to the existing trie built with the left edge proof
-	root, _, err = proofToPath(rootHash, root, lastKey, proof, true)
+	root, _, err = proofToPath(rootHash, root, lastKey, proof, crypto.Pedersen, true)
 	if err != nil {
 		return false, err
 	}
@@ -307,15 +312,27 @@ func proofToPath(
 	root trienode.Node,
 	keyBits Path,
 	proof *ProofNodeSet,
+	hashFn crypto.HashFn,
 	allowNonExistent bool,
 ) (trienode.Node, *felt.Felt, error) {
-	// Retrieves the node from the proof node set given the node hash
+	// Retrieves a copy of the node from the proof node set given the node hash and checks that
+	// the node really hashes to it: the single-element and the empty-range cases never recompute
+	// the root, so an unchecked node would be accepted whatever it contains
+	hasher := newHasher(hashFn, false)
 	retrieveNode := func(hash *felt.Felt) (trienode.Node, error) {
 		n, ok := proof.Get(*hash)
 		if !ok {
 			return nil, fmt.Errorf("proof node not found, expected hash: %s", hash.String())
 		}
-		return n, nil
+		// proofHash works on a copy of the node. That private copy is what gets linked into the
+		// trie: identical subtrees share one node in the set, and unsetInternal tells the two
+		// boundary paths apart by comparing node pointers
+		collapsed, hashed := hasher.proofHash(n)
+		got := hashed.Hash(hashFn)
+		if !got.Equal(hash) {
+			return nil, fmt.Errorf("proof node hash mismatch, expected hash: %s, got hash: %s", hash.String(), got.String())
+		}
+		return collapsed, nil
 	}
 
 	// Must resolve the root node first if it's not provided
@@ -349,11 +366,23 @@ func proofToPath(
 			parent = child
 			continue
 		case *trienode.HashNode:
+			if keyBits.Len() == 0 {
+				// The key is consumed: this is the leaf, given as a hash node (see VerifyProof).
+				// Its felt is the value, never the hash of a further node
+				leaf := trienode.ValueNode(*n)
+				child = &leaf
+				val = (*felt.Felt)(&leaf)
+				break
+			}
 			child, err = retrieveNode((*felt.Felt)(n))
 			if err != nil {
 				return nil, nil, err
 			}
 		case *trienode.ValueNode:
+			// A value and a hash child hash identically; only a leaf is a value
+			if keyBits.Len() != 0 {
+				return nil, nil, errors.New("value node before the key is consumed")
+			}
 			val = (*felt.Felt)(n)
 		}
 		// Link the parent and child
@@ -559,7 +588,13 @@ func unset(parent, child trienode.Node, key *Path, pos uint8, removeLeft bool) e
 		cld.Flags = trienode.NewNodeFlag()
 		return unset(cld, cld.Child, key, pos+cld.Path.Len(), removeLeft)
 
-	case nil, *trienode.HashNode, *trienode.ValueNode:
+	case *trienode.ValueNode:
+		// A boundary leaf hanging directly under a binary node: unset it like the leaf under an
+		// edge node above, so that the range has to supply it again (otherwise the first element
+		// of the range can be left out of the keys unnoticed)
+		parent.(*trienode.BinaryNode).Children[key.Bit(pos-1)] = nil
+		return nil
+	case nil, *trienode.HashNode:
 		// Child is nil, nothing to unset
 		return nil
 	default:
